@@ -201,8 +201,17 @@ reg('C07', plan=plan_c07, level='proof', min_obligations=100,
     not_decided=['from_raw_parts_mut flatten for len > 3 (bounded harness only)', 'unsafe code inside v_frame / aligned-vec'],
     design_ref='DESIGN.md §5 C07')
 
+KP = ('src/yuv_rgb.rs', 'k_planes.rs', 'verif_kani_planes')
 def plan_c11(tier, seed):
-    return {'verus': [('u_dispatch', {}), ('u_xyb', {})]}
+    B = 'real v_frame planes (Plane::new / from_slice), concrete tiny geometry, symbolic contents'
+    FX = B.replace('symbolic contents', 'FIXED pixel contents with pairwise distinct codes (content-independent index errors only)')
+    geos = [('422_4x1_u8', '4:2:2 8 bit limited'), ('440_2x2_u16', '4:4:0 10 bit limited u16'), ('420_4x2_u8', '4:2:0 8 bit full'), ('444_3x1_u16', '4:4:4 12 bit full u16')]
+    hs = [H(f'enc_blocks_{g}_fixed', fixed=True, bounded=FX, domain='one fixed image', desc=f'real ypbpr_to_ycbcr: luma pointwise, chroma plane size, chroma sample from its own block ({d})') for g, d in (geos if tier == 'thorough' else geos[:2])]
+    hs += [H('dec_pointwise_422_4x1_u8', bounded=B, domain='8 symbolic u8 samples', desc='real ycbcr_to_ypbpr: pixel (x,y) from Y(x,y), U/V(x>>1,y)'),
+           H('dec_pointwise_420_4x2_u8', bounded=B, domain='12 symbolic u8 samples', desc='real ycbcr_to_ypbpr: pixel (x,y) from Y(x,y), U/V(x>>1,y>>1)')]
+    if tier == 'thorough':
+        hs += [H(f'enc_blocks_{g}', bounded=B, domain='all pixel components symbolic in [-0.25,1.25]', desc=f'same with symbolic contents ({d})') for g, d in geos]
+    return {'verus': [('u_dispatch', {}), ('u_xyb', {})], 'kani': [{'crate_dir': '', 'inject': [KP], 'harnesses': hs}]}
 reg('C11', plan=plan_c11, level='proof', min_obligations=40,
     title='Conversions are pointwise, order-preserving and layout-independent',
     technique='Verus loop invariants: the output of each plane loop is stated as a function of origin-relative samples (row-major index map, chroma index (y>>ss_y, x>>ss_x)), for all geometries',
